@@ -47,7 +47,8 @@ def run(run):
     jobs = [('parse', k, n, dl) for n in range(N, 0, -1) for k in GR.TOKENS]
     jobs += [('interp', 'index', 3, dl)] + [('interp', ('slice', hs, ht), 3, dl) for hs in (0, 1) for ht in (0, 1)]
     jobs += [('slice', L, hs, ht, True, dl) for L in range(0, 5 if quick else 8) for hs in (0, 1) for ht in (0, 1)]
-    jobs += [('ast', k, (), 1, 1 if k == 'Comparison' else 2, dl, 20000 if quick else 10**7, True) for k in SA.COMPOUND]
+    jobs += [('ast', k, (), 1, 2, dl, 20000 if quick else 10**7, True) for k in SA.COMPOUND if k != 'Comparison']
+    jobs += [('ast', 'Comparison', (c1, c2), 1, 1, dl, 10**7, True) for c1 in ['Identity', 'Field', 'Index', 'Literal'] for c2 in ['Identity', 'Field', 'Index', 'Literal']]
     # built-in calls: every function on every combination of type representatives (incl. empty arrays/strings/objects) and on its own value universe
     from . import funcs as F, funcjob as FJ
     U = FJ.universes(2)
